@@ -324,7 +324,8 @@ Definition run_case (x : sexp) : sexp :=
              | POk t => L [Sym "ok"; Hex t]
              | PUnmodelled => L [Sym "unmodelled"]
              | POutOfFuel => L [Sym "out-of-fuel"] end;
-             Hex (spec_canonical_form s)]
+             Hex (spec_canonical_form s);
+             obs_of_res (fun s' => [sexp_of_schema s']) (parse_schema run_fuel (to_value j))]
         | None => obs_bad
         end
       | _ => obs_bad
